@@ -35,7 +35,21 @@ def bounded(run):
     M = 400 if run.tier == 'quick' else 3000
     with warnings.catch_warnings():
         warnings.simplefilter('ignore')
-        for m in list(range(1, M + 1)):
+        # a few large numbers of measurements in full (fractions come arbitrarily close to the half-okta edges only for large m), and
+        # for very large m the neighbours of every edge
+        big = [1003, 1999, 2203, 4001, 10007, 16001, 20011] if run.tier == 'quick' else [1003, 1999, 2203, 4001, 5003, 10007, 16001, 20011, 50021, 100003]
+        edge_probe = []
+        for m in (100003, 1000003, 86400, 17280):
+            ns = sorted({min(m, max(0, int(m * (e + 0.5) / 8) + d)) for e in range(8) for d in (-1, 0, 1, 2)} | {0, 1, 2, m - 2, m - 1, m})
+            edge_probe.append((m, ns))
+        for m, ns_ in edge_probe:
+            got = wmo.perc2okta(np.array(ns_) / m * 100)
+            counts['perc2okta'] += len(ns_)
+            for n_, g_ in zip(ns_, got):
+                if int(g_) != okta_ref(int(n_), m):
+                    nbad += 1
+                    fail(f'perc2okta({n_}/{m}*100) = {int(g_)}, expected {okta_ref(int(n_), m)}', {'n': int(n_), 'm': m})
+        for m in list(range(1, M + 1)) + big:
             ns = np.arange(0, m + 1)
             got = wmo.perc2okta(ns / m * 100)
             counts['perc2okta'] += m + 1
